@@ -65,6 +65,11 @@ TARGETS = [
     ("nv_prev_before", "cstree/src/syntax/node.rs", "SyntaxNode", None, "prev_child_or_token_before"),
     ("nv_next_sibling", "cstree/src/syntax/node.rs", "SyntaxNode", None, "next_sibling_or_token"),
     ("nv_prev_sibling", "cstree/src/syntax/node.rs", "SyntaxNode", None, "prev_sibling_or_token"),
+    ("tk_next_sibling", "cstree/src/syntax/token.rs", "SyntaxToken", None, "next_sibling_or_token"),
+    ("tk_prev_sibling", "cstree/src/syntax/token.rs", "SyntaxToken", None, "prev_sibling_or_token"),
+    ("tk_green", "cstree/src/syntax/token.rs", "SyntaxToken", None, "green"),
+    ("tk_kind", "cstree/src/syntax/token.rs", "SyntaxToken", None, "kind"),
+    ("tk_syntax_kind", "cstree/src/syntax/token.rs", "SyntaxToken", None, "syntax_kind"),
     ("n_clone", "cstree/src/syntax/node.rs", "SyntaxNode", "Clone", "clone"),
     ("n_drop", "cstree/src/syntax/node.rs", "SyntaxNode", "Drop", "drop"),
     ("n_try_write", "cstree/src/syntax/node.rs", "SyntaxNode", None, "try_write"),
